@@ -596,7 +596,8 @@ private:
     // ABI, so use the size of an element there
     detail::check_range_doesnt_cross_app_sbx_boundary<T_Sbx>(
       start,
-      count * sizeof(tainted_volatile<T_CopyAndVerifyRangeEl, T_Sbx>));
+      detail::checked_range_size(
+        count, sizeof(tainted_volatile<T_CopyAndVerifyRangeEl, T_Sbx>)));
 
     return start;
   }
